@@ -107,6 +107,25 @@ def handle : Handler := fun op inp impl =>
     { agree := holds, holds := holds, nontrivial := msgs.length > 1, cls := toString (nat (field inp "enc")),
       model := toJson msgs,
       why := if holds then "" else "a reused compressor produced a stream that does not decode to the message" }
+  | "procs" =>
+    let enc := nat (field inp "enc")
+    let procs := nat (field inp "procs")
+    let msgs := (strList (field inp "msgs")).map unhex
+    let outs : List Out := (strList (field impl "outs")).map fun s =>
+      if s.startsWith "data:" then .data (unhex (s.drop 5).toString) else if s.startsWith "panic" then .panic else .err
+    -- model: a pair freshly constructed in the environment, over a lawful library (the
+    -- algorithms are a parameter: identity stands in for them)
+    let l : Lib := { enc := fun b => b, look := fun src => ⟨true, some src⟩ }
+    let m := freshRoundTrip l ⟨procs⟩ (kindOf enc) msgs
+    -- the property: every message, the empty one included, comes back byte-exact from
+    -- instances constructed under this GOMAXPROCS
+    let holds := historyOk (msgs.map some) outs
+    let stage := ((strList (field impl "outs")).find? fun s => !(s.startsWith "data:")).getD ""
+    { agree := outs == m && nat (field impl "set") == procs, holds := holds, nontrivial := msgs.length > 1,
+      cls := "procs:" ++ toString procs,
+      model := toJson (m.map outStr),
+      why := if holds then "" else
+        s!"encoding {enc} via '{str (field inp "via")}': compressor/decompressor constructed while GOMAXPROCS={procs} do not round-trip ({stage}); every supported compression must round-trip in every process" }
   | "raw" =>
     let stream := bool (field inp "stream")
     let jitems := arr (field inp "items")
